@@ -1,5 +1,6 @@
 import MpVerif.C01.ModelGadgets
 import MpVerif.C01.ModelProp
+import MpVerif.C01.ModelCompose
 /-!
 Line driver for C01 (exe `drv_c01`).  One op per line:
 
@@ -122,6 +123,53 @@ def outStr (o : Out) : String :=
     "ok |V|" ++ ";".intercalate (o.vars.map viStr) ++ "|C|" ++ " ; ".intercalate (o.cons.map conStr)
       ++ "|N|" ++ ";".intercalate (o.narrow.map fun (v, i) => s!"{v}:{viStr i}")
 
+/-- functional expression from `Kind;field;field…` (same field syntax as `funStr`) -/
+def parseFun? : List String → Option Fun
+  | ["Affine", l, c] => do some (.affine (← parseList parseTerm? l) (← parseRat? c))
+  | ["Quadratic", l, q, c] => do some (.quadratic (← parseList parseTerm? l) (← parseList parseQTerm? q) (← parseRat? c))
+  | ["Abs", a] => do some (.abs (← a.toNat?))
+  | ["Min", as] => do some (.min (← parseList String.toNat? as))
+  | ["Max", as] => do some (.max (← parseList String.toNat? as))
+  | ["And", as] => do some (.and (← parseList String.toNat? as))
+  | ["Or", as] => do some (.or (← parseList String.toNat? as))
+  | ["Not", a] => do some (.not (← a.toNat?))
+  | ["Impl", as] => do
+    match ← parseList String.toNat? as with
+    | [c, t, e] => some (.impl c t e)
+    | _ => none
+  | ["IfThen", as] => do
+    match ← parseList String.toNat? as with
+    | [c, t, e] => some (.ifthen c t e)
+    | _ => none
+  | ["CondLin", k, l, r] => do some (.condLin (← parseCmp5? k) (← parseList parseTerm? l) (← parseRat? r))
+  | ["CondQuad", k, l, q, r] => do
+    some (.condQuad (← parseCmp5? k) (← parseList parseTerm? l) (← parseList parseQTerm? q) (← parseRat? r))
+  | ["Count", as] => do some (.count (← parseList String.toNat? as))
+  | ["NumberofConst", k, as] => do some (.numberofConst (← parseRat? k) (← parseList String.toNat? as))
+  | ["NumberofVar", r, as] => do some (.numberofVar (← r.toNat?) (← parseList String.toNat? as))
+  | ["AllDiff", as] => do some (.alldiff (← parseList String.toNat? as))
+  | ["Div", as] => do
+    match ← parseList String.toNat? as with
+    | [a, b] => some (.div a b)
+    | _ => none
+  | ["Pow", a, p] => do some (.pow (← a.toNat?) (← p.toNat?))
+  | _ => none
+
+/-- `res;ctx;Kind;fields…` -/
+def parseDef? (s : String) : Option Def :=
+  match s.splitOn ";" with
+  | r :: c :: rest => do some { res := ← r.toNat?, ctx := ← parseCtx? c, f := ← parseFun? rest }
+  | _ => none
+
+/-- `lin;lb;ub` -/
+def parseRoot? (s : String) : Option Root :=
+  match s.splitOn ";" with
+  | [l, lb, ub] => do some { body := ← parseList parseTerm? l, lb := ← parseBound? lb, ub := ← parseBound? ub }
+  | _ => none
+
+def parseBar {α} (f : String → Option α) (s : String) : Option (List α) :=
+  if s == "" then some [] else (s.splitOn "|").mapM f
+
 structure Args where
   kv : List (String × String)
 
@@ -221,6 +269,13 @@ def runOp (g : String) (a : Args) : Option String := do
   | "rangectx" => do
     let lb ← a.bound? "lb"; let ub ← a.bound? "ub"
     some ("ctx " ++ (rangeCtx lb ub).toString)
+  | "validate" => do   -- per-run validator of the composition theorem's hypotheses WF and CtxCovers
+    let defs ← (a.get? "defs").getD "" |> parseBar parseDef?
+    let roots ← (a.get? "roots").getD "" |> parseBar parseRoot?
+    let n0 := (a.nat? "n0").getD 0
+    let gaps := ctxGaps B defs roots
+    some (s!"valid wf={if wfB n0 defs then 1 else 0} gaps={gaps.length} " ++
+      " ".intercalate (gaps.map fun (v, need, have_) => s!"{v}:{need.toString}>{have_.toString}"))
   | "propfun" => do   -- PropagateResult(<functional constraint>&, ..., ctx): contexts handed to the arguments
     let cx ← a.ctx?
     let ty ← a.get? "type"
